@@ -374,7 +374,13 @@ end:
 func (st *States) switchState(sctx switchContext) error {
 	e := util.StringError("switch state")
 
-	current := st.current()
+	// NOTE the switch context is checked against the current handler and allow
+	// consensus inside the same locked region, which exits and enters the
+	// handlers; SetAllowConsensus() holds the same lock, so current state and
+	// allow consensus can not be changed between the check and entering.
+	st.stateLock.Lock()
+
+	current := st.cs
 	nsctx := sctx
 
 	var asctx switchContext
@@ -382,16 +388,23 @@ func (st *States) switchState(sctx switchContext) error {
 	switch err := st.checkStateSwitchContext(nsctx, current); {
 	case err == nil:
 	case errors.Is(err, ErrIgnoreSwitchingState):
+		st.stateLock.Unlock()
+
 		return nil
 	case errors.As(err, &asctx):
 		nsctx = asctx
 	default:
+		st.stateLock.Unlock()
+
 		return err
 	}
 
 	l := st.stateSwitchContextLog(nsctx, current)
 
 	cdefer, ndefer, err := st.exitAndEnter(nsctx, current)
+
+	st.stateLock.Unlock()
+
 	if err != nil {
 		switch {
 		case errors.Is(err, ErrIgnoreSwitchingState):
@@ -424,10 +437,8 @@ func (st *States) switchState(sctx switchContext) error {
 	return nil
 }
 
+// exitAndEnter should be called under stateLock.
 func (st *States) exitAndEnter(sctx switchContext, current handler) (func(), func(), error) {
-	st.stateLock.Lock()
-	defer st.stateLock.Unlock()
-
 	e := util.StringError("switch state")
 	l := st.stateSwitchContextLog(sctx, current)
 
@@ -723,7 +734,9 @@ func (st *States) SetAllowConsensus(allow bool) bool { // revive:disable-line:fl
 	isset := st.setAllowConsensus(allow)
 
 	if isset {
-		switch current := st.current(); {
+		// NOTE stateLock is already read-locked; st.current() would read-lock
+		// again and deadlocks with switchState() waiting for the write lock.
+		switch current := st.cs; {
 		case current == nil:
 		case current.state() == StateJoining, current.state() == StateConsensus:
 			st.Log().Debug().Stringer("current", current.state()).Bool("allow", allow).Msg("set allow consensus")
